@@ -32,6 +32,12 @@ func (ev *c10Eval) expr(e ast.Expr, env c10Env, depth int) c10Val {
 		if ev.errVars[obj] {
 			return c10Val{K: c10VErr}
 		}
+		if f, isFunc := obj.(*types.Func); isFunc && ev.decls[f] != nil && f.Type().(*types.Signature).Recv() == nil {
+			return c10Val{K: c10VFunc, Fn: ev.decls[f]}
+		}
+		if lit, isTable := ev.tableVars()[obj]; isTable {
+			return ev.expr(lit, c10Env{}, depth)
+		}
 		return ev.unknownOf(tv.Type, "value of `"+x.Name+"` is not tracked")
 	case *ast.BinaryExpr:
 		return ev.binary(x, env, depth)
@@ -61,7 +67,11 @@ func (ev *c10Eval) expr(e ast.Expr, env c10Env, depth int) c10Val {
 		}
 		return ev.unknownOf(tv.Type, "unary "+x.Op.String())
 	case *ast.StarExpr:
-		return ev.expr(x.X, env, depth)
+		pv := ev.expr(x.X, env, depth)
+		if pv.K == c10VNil {
+			ev.pan = "nil pointer dereference"
+		}
+		return pv
 	case *ast.SelectorExpr:
 		if sel := ev.info.Selections[x]; sel != nil && sel.Kind() == types.FieldVal {
 			base := ev.expr(x.X, env, depth)
@@ -91,7 +101,20 @@ func (ev *c10Eval) expr(e ast.Expr, env c10Env, depth int) c10Val {
 				return base.Args[i]
 			}
 		}
+		if base.K == c10VMap {
+			v, found, ok := ev.mapIndex(base, idx)
+			if ok {
+				if tp, isTuple := tv.Type.(*types.Tuple); isTuple && tp.Len() == 2 {
+					return c10Val{K: c10VTuple, Args: []c10Val{v, c10BoolVal(found)}}
+				}
+				return v
+			}
+		}
 		return ev.unknownOf(tv.Type, "indexed value")
+	case *ast.CompositeLit:
+		return ev.compositeLit(x, env, depth)
+	case *ast.FuncLit:
+		return c10Val{K: c10VFunc, Lit: x, Cap: env}
 	case *ast.TypeAssertExpr:
 		if x.Type == nil {
 			return ev.unknownOf(tv.Type, "type switch guard")
@@ -213,6 +236,8 @@ func (ev *c10Eval) eqVals(a, b c10Val) int {
 		return 0
 	case a.K == c10VNil && (b.K == c10VDyn || b.K == c10VStruct), b.K == c10VNil && (a.K == c10VDyn || a.K == c10VStruct):
 		return 0
+	case a.K == c10VNil && (b.K == c10VInt || b.K == c10VStr || b.K == c10VText), b.K == c10VNil && (a.K == c10VInt || a.K == c10VStr || a.K == c10VText):
+		return 0 // a pointer is modelled by the value it points to: it points to something, so it is not nil
 	}
 	return -1
 }
@@ -534,6 +559,20 @@ func (ev *c10Eval) stringsCall(fn *types.Func, args []c10Val, t types.Type) (c10
 	if len(args) < 2 {
 		return c10Val{}, false
 	}
+	if fn.Name() == "Join" && args[0].K == c10VSlice && args[1].K == c10VStr {
+		var all []c10Piece
+		for i, el := range args[0].Args {
+			q, ok := c10Pieces(el)
+			if !ok || (el.K == c10VStr && c10IsGeneric(el.S)) {
+				return c10Val{}, false
+			}
+			if i > 0 {
+				all = append(all, c10Piece{Lit: args[1].S})
+			}
+			all = append(all, q...)
+		}
+		return c10MkText(all), true
+	}
 	ps, ok := c10Pieces(args[0])
 	if !ok || args[1].K != c10VStr || !c10SepOK(args[1].S) {
 		return c10Val{}, false
@@ -650,6 +689,11 @@ func (ev *c10Eval) callExpr(call *ast.CallExpr, env c10Env, depth int) c10Val {
 			return c10SliceVal(append(append([]c10Val{}, args[0].Args...), args[1:]...))
 		}
 		return ev.unknownOf(tv.Type, "append to an untracked slice")
+	case "make":
+		if v, ok := ev.makeCall(call, env, depth); ok {
+			return v
+		}
+		return ev.unknownOf(tv.Type, "make with a non-constant size")
 	case "panic":
 		for _, a := range call.Args {
 			ev.expr(a, env, depth)
@@ -661,6 +705,17 @@ func (ev *c10Eval) callExpr(call *ast.CallExpr, env c10Env, depth int) c10Val {
 		return ev.unknownOf(tv.Type, "builtin "+builtinName(ev.info, call))
 	}
 	fn := callee(ev.info, call)
+	if fn == nil {
+		// a function literal held in a local variable (or invoked in place): interpret its body in the
+		// environment it captured; it must not assign to captured variables (see assignTo)
+		if fv := ev.expr(call.Fun, env, depth); fv.K == c10VFunc && !call.Ellipsis.IsValid() {
+			var as []c10Val
+			for _, a := range call.Args {
+				as = append(as, ev.expr(a, env, depth))
+			}
+			return ev.finishCall(ev.callLit(fv, as, depth+1), "the function literal", tv.Type)
+		}
+	}
 	var args []c10Val
 	evalArgs := func() {
 		if args == nil {
@@ -697,6 +752,10 @@ func (ev *c10Eval) callExpr(call *ast.CallExpr, env c10Env, depth int) c10Val {
 				}
 			}
 		}
+	case fn != nil && fn.Pkg() != nil && fn.Pkg().Path() == "sort" && fn.Type().(*types.Signature).Recv() == nil:
+		if v, ok := ev.sortCall(call, fn.Name(), env, depth); ok {
+			return v
+		}
 	case fn != nil && fn.Pkg() != nil && fn.Pkg().Path() == "strings" && fn.Type().(*types.Signature).Recv() == nil:
 		evalArgs()
 		if v, ok := ev.stringsCall(fn, args, tv.Type); ok {
@@ -730,34 +789,7 @@ func (ev *c10Eval) callExpr(call *ast.CallExpr, env c10Env, depth int) c10Val {
 		if call.Ellipsis.IsValid() || fd.Type.Params.NumFields() != len(args) {
 			return ev.unknownOf(tv.Type, "variadic call of "+funcName(target))
 		}
-		outs := ev.call(fd, recv, args, depth+1)
-		if o, ok := ev.forkCallee(outs); ok {
-			outs = []c10Outcome{o}
-		}
-		if len(outs) == 1 && !outs[0].Panic && outs[0].Unsupported == "" {
-			switch len(outs[0].Res) {
-			case 0:
-				return c10Val{K: c10VTuple}
-			case 1:
-				return outs[0].Res[0]
-			}
-			return c10Val{K: c10VTuple, Args: outs[0].Res}
-		}
-		why := fmt.Sprintf("%s has %d outcomes on this input", funcName(target), len(outs))
-		allPanic := len(outs) > 0
-		for _, o := range outs {
-			if o.Unsupported != "" {
-				why = funcName(target) + ": " + o.Unsupported
-			}
-			if !o.Panic {
-				allPanic = false
-			}
-		}
-		if allPanic {
-			why = funcName(target) + " panics on this input"
-			ev.pan = why
-		}
-		return ev.unknownOf(tv.Type, why)
+		return ev.finishCall(ev.call(fd, recv, args, depth+1), funcName(target), tv.Type)
 	}
 	evalArgs()
 	name := "call"
@@ -765,4 +797,45 @@ func (ev *c10Eval) callExpr(call *ast.CallExpr, env c10Env, depth int) c10Val {
 		name = "call of " + fn.FullName()
 	}
 	return ev.unknownOf(tv.Type, name+" is not interpreted")
+}
+
+// callLit interprets a function literal value.
+func (ev *c10Eval) callLit(fv c10Val, args []c10Val, depth int) []c10Outcome {
+	if fv.Fn != nil {
+		return ev.call(fv.Fn, nil, args, depth)
+	}
+	ev.litStack = append(ev.litStack, fv.Lit)
+	defer func() { ev.litStack = ev.litStack[:len(ev.litStack)-1] }()
+	return ev.callBody(fv.Lit.Type, fv.Lit.Body, fv.Cap, args, depth)
+}
+
+// finishCall turns the outcomes of an inlined callee into the value of the call expression.
+func (ev *c10Eval) finishCall(outs []c10Outcome, name string, t types.Type) c10Val {
+	if o, ok := ev.forkCallee(outs); ok {
+		outs = []c10Outcome{o}
+	}
+	if len(outs) == 1 && !outs[0].Panic && outs[0].Unsupported == "" {
+		switch len(outs[0].Res) {
+		case 0:
+			return c10Val{K: c10VTuple}
+		case 1:
+			return outs[0].Res[0]
+		}
+		return c10Val{K: c10VTuple, Args: outs[0].Res}
+	}
+	why := fmt.Sprintf("%s has %d outcomes on this input", name, len(outs))
+	allPanic := len(outs) > 0
+	for _, o := range outs {
+		if o.Unsupported != "" {
+			why = name + ": " + o.Unsupported
+		}
+		if !o.Panic {
+			allPanic = false
+		}
+	}
+	if allPanic {
+		why = name + " panics on this input"
+		ev.pan = why
+	}
+	return ev.unknownOf(t, why)
 }
